@@ -348,12 +348,17 @@ impl BackwardEngine {
         // Set max_solutions to unlimited for aggregation
         let original_max = self.config.max_solutions;
         self.config.max_solutions = usize::MAX;
+        // The memo cache stores verdicts only, not solutions: an aggregate answered from it
+        // would be computed over an empty solution list. Always search.
+        let original_memo = self.config.enable_memoization;
+        self.config.enable_memoization = false;
 
         // Execute the underlying pattern query to get all solutions
         let result = self.query(&agg_query.pattern, facts);
 
         // Restore original max_solutions (also when the query failed)
         self.config.max_solutions = original_max;
+        self.config.enable_memoization = original_memo;
         let result = result?;
 
         // Apply aggregation to solutions
